@@ -31,7 +31,7 @@ THEOREMS = [
     'IblVerif.C10.digital_line_bit',
     'IblVerif.C10.ttl_recovered',
     'IblVerif.C10.ttl_recovered_imec',
-    'IblVerif.C10.read_sync_empty_counterexample',
+    'IblVerif.C10.read_sync_empty_selection',
     'IblVerif.C10.read_sync_no_meta_counterexample',
 ]
 RULE = ('(a) all 65 536 int16 sync samples through split_sync, every run, in three array forms (1-D int16, (n,1) int16, uint16); '
@@ -55,7 +55,7 @@ ASSUMPTIONS = [
     'read_sync thresholds are positive and floor_percentile is 10 (default) or 0 (off): the code ignores any other value of floor_percentile (always the 10th percentile), which the property does not speak about',
     'np.percentile is an external component: the model receives the values it returned for the selection (float32) and reproduces the float32/float64 arithmetic around it bit for bit',
     'calibration of the analog channels (int16 -> volts) is C01\'s subject; here it is the fixed expression f32(f64(f32(x)) * gain64) with the gains taken from the Reader',
-    'excluded input classes (reported as findings, see known_findings): read_sync of zero samples on a nidq stream with analog lines; readers opened without meta data',
+    'excluded input class (known finding read-sync-no-meta, see known_findings): readers opened without meta data. Zero-sample selections (slice(ns, ns+10000), slice(k, k)) ARE generated, on every stream kind, through read_sync and read(sync=True)',
 ]
 TRUSTED = [
     'NumPy: unpackbits/roll/flip/diff/where/percentile semantics are exercised through the real code, not modelled beyond their documented meaning',
@@ -534,12 +534,6 @@ def _selection_empty(case):
     return len(range(*slice(a, b, c).indices(case['ns']))) == 0
 
 
-def _excluded(case):
-    """Known finding read-sync-empty-selection: zero samples selected on a nidq stream with analog lines and the floor on."""
-    return (case['stream'] == 'nidq' and case['cfg'][2] > 0 and bool(case['floor'] if not case.get('default_args') else 10)
-            and _selection_empty(case))
-
-
 def _gen_ttl_case(rng):
     n = int(rng.choice([1, 2, 3, 5, 9, 17, 40, 64]))
     nl = int(rng.choice([0, 1, 1, 2, 3, 8, 16]))
@@ -689,7 +683,6 @@ def correspondence(ctx):
         rcases.append(_gen_nidq_case(rng, default_args=bool(rng.random() < 0.35)))
     for _ in range(ctx.n(60, 600)):
         rcases.append(_gen_imec_case(rng))
-    rcases = [c for c in rcases if not _excluded(c)]
     lines, impls = [], []
     for cse in rcases:
         tdir = tempfile.mkdtemp(prefix='c10_')
@@ -705,6 +698,8 @@ def correspondence(ctx):
         tags = ('readsync', 'readsync:' + cse['stream'], f'analog_lines={xa}', 'floor' if (cse['floor'] if not cse.get('default_args') else 10) else 'nofloor',
                 'default-args' if cse.get('default_args') else 'explicit-args', 'nsel=0' if nsel == 0 else 'nsel=1' if nsel == 1 else 'nsel>1',
                 'slice-step' if cse['slice'][2] else 'slice-plain', 'thr=sample-value' if cse.get('thr_is_sample') else 'thr=preset')
+        if nsel == 0 and xa and (cse['floor'] if not cse.get('default_args') else 10):
+            tags += ('empty-selection+analog+floor', 'empty+analog+floor via read(sync=True)' if cse.get('default_args') else 'empty+analog+floor explicit')
         ctx.compare('read_sync', dict(cse, view='read_sync'), ans['full'],
                     full_m + (' dtype=int8' if full_m.startswith('ok') else ''), nontrivial=nsel > 0, tags=tags)
         ctx.compare('read_sync_digital', dict(cse, view='read_sync_digital'), ans['digital'], dig_m, nontrivial=nsel > 0, tags=('readsync_digital',))
@@ -829,8 +824,6 @@ def oracle_front(case):
 
 def oracle_readsync(case):
     """one row per selected sample; 16 digital lines (bit k of the sync word) first, thresholded analog lines after."""
-    if _excluded(case):
-        return None
     tdir = tempfile.mkdtemp(prefix='c10_')
     try:
         D, sr = _open_case(case, tdir)
@@ -985,13 +978,16 @@ def _small_candidates(ctx):
             for axis in (0, 1, -1, -2):
                 for op, step in (('fronts2', 1), ('rises2', 1), ('falls2', -1)):
                     c.append(dict(op=op, shape=[r, cc], x=list(bits), dtype='int8', axis=axis, step=step, analog=False, default_args=False))
+    # zero samples selected on a stream with analog lines: slice(ns, ns + 10000) and slice(k, k)
+    for sl in ([2, 10002, None], [1, 1, None]):
+        for default in (True, False):
+            c.append(dict(op='readsync', stream='nidq', cfg=[0, 0, 1, 1], ns=2, rmax=5, thr=1.2, floor=10, slice=sl,
+                          default_args=default, D=[100, 1, 200, 2]))
     rng = ctx.subrng(991)
     for k in range(40):
         c.append(_gen_ttl_case(rng))
     for k in range(60):
-        cs = _gen_nidq_case(rng, default_args=(k % 3 == 0))
-        if not _excluded(cs):
-            c.append(cs)
+        c.append(_gen_nidq_case(rng, default_args=(k % 3 == 0)))
     for k in range(6):
         c.append(_gen_imec_case(rng))
     c.append(dict(op='split', x='all', form='i16'))
@@ -1051,27 +1047,6 @@ def replay(ctx, rep):
 # ---------------------------------------------------------------------------------------------
 # known findings (demonstrations; listed only when known_findings.txt carries the key)
 # ---------------------------------------------------------------------------------------------
-def _demo_empty_selection():
-    """read_sync of zero samples on a nidq stream with an analog line: expected a (0, 17) array, the code raises."""
-    case = dict(op='readsync', stream='nidq', cfg=[0, 0, 1, 1], ns=4, rmax=5, thr=1.2, floor=10, slice=[4, 10000, None],
-                default_args=True, D=[0, 0, 100, 1, 200, 2, 300, 3])
-    tdir = tempfile.mkdtemp(prefix='c10_')
-    try:
-        D, sr = _open_case(case, tdir)
-        try:
-            with warnings.catch_warnings():
-                warnings.simplefilter('ignore')
-                try:
-                    out = sr.read_sync(slice(4, 10000))
-                    return out.shape != (0, 17)
-                except Exception:  # noqa
-                    return True
-        finally:
-            sr.close()
-    finally:
-        shutil.rmtree(tdir, ignore_errors=True)
-
-
 def _demo_no_meta():
     """A flat binary opened without .meta (385 channels, last one sync): read_sync raises instead of decoding the last trace."""
     import spikeglx
@@ -1096,4 +1071,4 @@ def _demo_no_meta():
 
 
 def known_findings(ctx):
-    return {'read-sync-empty-selection': _demo_empty_selection, 'read-sync-no-meta': _demo_no_meta}
+    return {'read-sync-no-meta': _demo_no_meta}
